@@ -22,6 +22,8 @@ theorem skel_Add : Gen.skel_Add = Spec.Skel.skel_Add ∧ Gen.skel_AddBg = Spec.S
 theorem skel_recover : Gen.skel_recoverHandlerPanic = Spec.Skel.skel_recoverHandlerPanic := by decide +kernel
 theorem skel_execLoop : Gen.skel_execLoop = Spec.Skel.skel_execLoop := by decide +kernel
 theorem skel_readLoop : Gen.skel_readLoop = Spec.Skel.skel_readLoop := by decide +kernel
+/-- the echo flag is decided right before dispatch, from the nick in force then -/
+theorem skel_setEcho : Gen.skel_setEcho = Spec.Skel.skel_setEcho := by decide +kernel
 
 /-! ### routing -/
 
